@@ -565,8 +565,33 @@ fn table_checks(stats: &mut Stats, out: &mut Vec<Violation>) -> usize {
         problems.extend(ctx.problems);
     }
     stats.data_checked += count as u64;
-    if count != entries {
-        problems.push(format!("the standard table has {} entries, the enumerated family has {} members", entries, count));
+    // entries beyond the enumerated families (a richer standard table) only get the checks that
+    // need no Rust type: own-name lookup and the JSON round trip, below
+    stats.by_origin.insert("standard table entries".to_owned(), entries as u64);
+    stats.by_origin.insert("standard table entries compared with the host by type".to_owned(), count as u64);
+    // the table of everything the library knows (`add_all_types`: the standard table plus what
+    // cargo features add) holds every standard entry unchanged, and answers for each of its
+    // entries under that entry's own name, before and after the JSON round trip
+    {
+        let mut all = StaticTypeResolver::new();
+        all.add_all_types();
+        let all_map: BTreeMap<String, DynamicTypeInfo> = serde_json::from_str(&all.to_json_string().unwrap()).unwrap();
+        for (k, d) in &parsed {
+            match all_map.get(k) {
+                Some(x) if x.info == d.info && x.allow_uninit == d.allow_uninit => {}
+                other => problems.push(format!("standard entry {:?} is {:?} in the standard table and {:?} in the table of all types", k, d, other)),
+            }
+        }
+        let all_rt = StaticTypeResolver::from(all_map.clone());
+        for (k, d) in &all_map {
+            for t in [&all, &all_rt] {
+                match catch_unwind(AssertUnwindSafe(|| t.dynamic_type_info(k))) {
+                    Ok(x) if x.info == d.info && x.allow_uninit == d.allow_uninit && x.info.name == *k => {}
+                    other => problems.push(format!("table of all types, key {:?}: registered {:?}, answered {:?}", k, d, other.ok())),
+                }
+            }
+        }
+        stats.by_origin.insert("entries of the table of all types".to_owned(), all_map.len() as u64);
     }
     // every key of the table answers identically after the round trip
     for (k, d) in &parsed {
